@@ -402,13 +402,14 @@ Inductive op :=
 | OSetLocales (p : cpath) (ls : list locale)
 | OAddPaths (p : cpath) (ps : list pathd).
 
-(* the answers of the queries, in order *)
-Fixpoint run_ops (c : config) (ops : list op) : result (list action) :=
+(* the answers of the queries, in order; beside each the cache-free answer of
+   the configuration as it is at that moment *)
+Fixpoint run_ops (c : config) (ops : list op) : result (list (action * action)) :=
   match ops with
   | [] => Ok []
   | OQuery loc f ent :: ops' =>
       let '(v, c') := filter_st c loc f ent in
-      do rest <- run_ops c' ops'; Ok (v :: rest)
+      do rest <- run_ops c' ops'; Ok ((v, filter_pure c loc f ent) :: rest)
   | OAddRules p rs :: ops' =>
       do c' <- update_at p (fun x => add_rules x rs) c; run_ops c' ops'
   | OSetLocales p ls :: ops' =>
